@@ -52,7 +52,7 @@ fn replay(path: &str, target: &serde_json::Value, requests: &[Request]) -> Resul
             );
         }
     }
-    let got = projection(&fresh, true);
+    let got = projection(&fresh, false);
     if let Some(d) = first_diff(target, &got) {
         fail!(
             format!("C05/replay-differs:{}", top_key(&d)),
@@ -73,7 +73,7 @@ pub fn check(case: &Case) -> CheckResult {
             removal_or_patch |= cmd::is_removal_or_patch(r);
         }
     }
-    let target = projection(&s, true);
+    let target = projection(&s, false);
 
     // p1: in-memory requests (worker bootstrap)
     let initial = s.produce_initial_state();
@@ -187,15 +187,110 @@ pub fn check(case: &Case) -> CheckResult {
     Ok(rep)
 }
 
+
+// ------------------------------------------------------------------ sub-check `loadfile`
+
+/// A generated state, saved by sozu's own writer, goes through the main process's real LoadState and
+/// SaveState (CommandHub without workers, over its unix command socket).
+#[derive(Clone, Debug, Serialize, Deserialize)]
+pub struct FileCase {
+    pub history: Vec<Request>,
+    /// big records: (listener address index, bank certificate, number of chain entries) per extra AddCertificate
+    pub big: Vec<(u32, u32, u8)>,
+}
+
+pub fn file_strategy() -> impl Strategy<Value = FileCase> {
+    (cmd::history(30), prop::collection::vec((any::<u32>(), any::<u32>(), prop_oneof![Just(0u8), 1u8..6, 6u8..40]), 0..3)).prop_map(|(history, big)| FileCase { history, big })
+}
+
+pub fn file_check(case: &FileCase) -> CheckResult {
+    use sozu_command_lib::proto::command::{request::RequestType, AddCertificate, CertificateAndKey};
+    let mut rep = CaseReport::default();
+    let mut s = ConfigState::new();
+    for r in &case.history {
+        let _ = s.dispatch(r);
+    }
+    let mut biggest = 0usize;
+    for (a, c, n) in &case.big {
+        let bank = &crate::gens::certs::BANK;
+        let cert = &bank[engine::pick_idx(*c, bank.len())];
+        let chain: Vec<String> = (0..*n as usize).map(|i| bank[(i + 1) % bank.len()].pem.to_string()).collect();
+        let req = Request {
+            request_type: Some(RequestType::AddCertificate(AddCertificate {
+                address: cmd::sa(cmd::LISTENER_ADDRS[engine::pick_idx(*a, cmd::LISTENER_ADDRS.len())]),
+                certificate: CertificateAndKey { certificate: cert.pem.to_string(), certificate_chain: chain, key: cert.key.to_string(), versions: vec![], names: vec![] },
+                expired_at: None,
+            })),
+        };
+        if s.dispatch(&req).is_ok() {
+            biggest = biggest.max(serde_json::to_string(&req).map(|t| t.len()).unwrap_or(0));
+        }
+    }
+    // the file as sozu writes it
+    let mut f = tempfile::tempfile_in("/verif/scratch").expect("temp file");
+    if let Err(e) = s.write_requests_to_file(&mut f) {
+        fail!("C05/write-failed", "write_requests_to_file failed: {e}");
+    }
+    let mut bytes = vec![];
+    f.seek(SeekFrom::Start(0)).expect("seek");
+    f.read_to_end(&mut bytes).expect("read back");
+    // sozu's loader reads through a 200 000-byte window: one record above it cannot be loaded (documented limit
+    // of the implementation, not generated)
+    if biggest > 150_000 {
+        rep.excluded_known += 1;
+        return Ok(rep);
+    }
+    let ((load_status, load_msg), (save_status, save_msg), saved) = match super::c09::load_then_save(&bytes) {
+        Ok(x) => x,
+        Err(e) => fail!("C05/main-process-failed", "{e}"),
+    };
+    if load_status != "Ok" {
+        fail!("C05/loadstate-refused", "LoadState of a {}-byte file written by sozu itself (largest record about {biggest} bytes) was answered {load_status}: {load_msg}", bytes.len());
+    }
+    if save_status != "Ok" {
+        fail!("C05/savestate-refused", "SaveState after LoadState was answered {save_status}: {save_msg}");
+    }
+    let Ok((rest, requests)) = parse_several_requests::<WorkerRequest>(&saved) else {
+        fail!("C05/saved-file-unreadable", "the file written by SaveState does not parse");
+    };
+    if !rest.is_empty() {
+        fail!("C05/saved-file-unreadable", "{} trailing bytes in the file written by SaveState", rest.len());
+    }
+    let reqs: Vec<Request> = requests.into_iter().map(|w| w.content).collect();
+    let target = projection(&s, false);
+    replay("loadfile: LoadState + SaveState through the main process", &target, &reqs)?;
+    rep.nontrivial = object_kinds(&s) >= 2;
+    rep.class_if(biggest > 16_393, "record_above_16393_bytes");
+    rep.class_if(biggest > 8_000, "record_above_8000_bytes");
+    rep.class_if(bytes.len() > 16_393, "file_above_16393_bytes");
+    rep.class_if(bytes.len() > 200_000, "file_above_200000_bytes");
+    rep.inner_evaluations = reqs.len() as u64;
+    Ok(rep)
+}
+
 pub fn run(args: &Args) -> i32 {
     let mut ev = Evidence::new(args, "exploration");
     ev.rule(
         "roundtrip",
-        "history = 0..40 commands from G-cmd (every mutating verb of ConfigState::dispatch, valid and invalid arguments over small colliding pools) building a reachable state S; S is replayed through produce_initial_state (in-memory), the protobuf blob, the \\n\\0-separated JSON state file (10% through real files), the JSON upgrade payload, and a within-verb permutation; every replayed request must be accepted and the projection (all maps but request_counts, empty buckets normalised) must equal S's. Non-trivial: S has >= 3 object kinds and the history contains an accepted removal/patch; distinct by case hash.",
+        "history = 0..40 commands from G-cmd (every mutating verb of ConfigState::dispatch, valid and invalid arguments over small colliding pools) building a reachable state S; S is replayed through produce_initial_state (in-memory), the protobuf blob, the \\n\\0-separated JSON state file (10% through real files), the JSON upgrade payload, and a within-verb permutation; every replayed request must be accepted and the projection (all maps but request_counts; an empty bucket left behind by a removal counts as a difference, sozu drops them since fix e8642c9) must equal S's. Non-trivial: S has >= 3 object kinds and the history contains an accepted removal/patch; distinct by case hash.",
     );
     ev.assume("the fork/exec of upgrade_main is not run; UpgradeData.state is the ConfigState JSON round trip checked here");
     ev.floor("roundtrip", "3+_object_kinds", 0.3);
     let cases = args.cases(30_000, 400_000);
     engine::with_quiet_stdout(|| engine::run_pbt(&mut ev, args, "roundtrip", cases, strategy, check));
+    ev.rule(
+        "loadfile",
+        "history = 0..30 commands from G-cmd plus 0..2 AddCertificate with a chain of 0..39 certificates (records from 2 kB to about 60 kB); the resulting state is written by ConfigState::write_requests_to_file, loaded by the real main process (CommandHub without workers, LoadState over its unix command socket), saved again with SaveState, and the saved file replayed on a fresh instance: LoadState and SaveState must answer OK and the replayed projection must equal the original state's. Non-trivial: the state has >= 2 object kinds; distinct by case hash.",
+    );
+    ev.floor("loadfile", "file_above_16393_bytes", 0.15);
+    ev.floor("loadfile", "record_above_16393_bytes", 0.1);
+    // the hub thread logs through sozu's stdout logger
+    {
+        let mut args1 = args.clone();
+        args1.jobs = 8;
+        engine::with_quiet_stdout(|| engine::run_pbt(&mut ev, &args1, "loadfile", args.cases(300, 6_000), file_strategy, file_check));
+    }
+    engine::with_quiet_stdout(|| engine::fuzz::corpus_check(&mut ev, args, "corpus", "state_stream", "C05/corpus", &["unparsable", "no_records", "empty_state"], vp_oracles::state_stream));
+    engine::fuzz::campaign(&mut ev, args, "fuzz", "state_stream", 400_000);
     ev.finish()
 }
